@@ -383,6 +383,14 @@ func (c *Conn) Kill() {
 	c.closeBoth(&IdleTimeoutError{}, &IdleTimeoutError{})
 }
 
+// KillWith ends the connection with the given terminal error on this side (and an idle timeout on
+// the peer): the other ways quic-go reports a dead connection - a stateless reset
+// (*quic.StatelessResetError, whose Temporary() is true), a transport error, a remote application
+// close.
+func (c *Conn) KillWith(local error) {
+	c.closeBoth(local, &IdleTimeoutError{})
+}
+
 func (c *Conn) OpenStream() (*Stream, error) {
 	c.e.Point("quic", nil, "Conn.OpenStream")
 	c.OpenStreamCalls++
